@@ -119,6 +119,8 @@ structure Loop where
   stopped : Bool := false
   orphanClosed : Nat := 0        -- Close calls on an incoming connection whose destination could not be opened
   snaps : List Counters := []
+  pendingIn : Nat := 0           -- bytes accepted by incoming connections whose auditor call has not run yet
+  pendingOut : Nat := 0          -- the same for outgoing connections
   deriving Repr
 
 /-- Apply an event to connection `k`, updating the counters the way the auditors
@@ -156,5 +158,75 @@ def Loop.step (l : Loop) : LoopEvent → Loop
 
 /-- The loop under a script; the harness always ends by making `source.Open()` fail. -/
 def Loop.run (es : List LoopEvent) : Loop := (es.foldl Loop.step {}).step .stop
+
+/-! ## Loop generations
+
+`controller.run` tears the forwarding loop down (endpoint failure, pause) and
+starts a new one (reconnect, resume) with a fresh `State`. `ForwardAndClose`
+does not wait for its copy goroutines: a destination `Write` that is still in
+flight at teardown returns — and is audited — later, possibly after the next
+loop has installed its `State`. `forward` captures the `State` pointer of its
+own loop in the auditor closures, so such a late audit is credited to the
+`State` of the loop the connection belongs to.
+
+A write in flight is modelled in two halves: `inFlight` (the destination
+accepts the bytes, the audit is pending) and `release` (the pending audits of
+a loop run, against that loop's own counters). -/
+
+/-- A chunk whose destination `Write` accepts everything but has not returned
+yet: the connection state advances as for an ordinary complete write, the
+loop's data totals do not (the auditor has not run). -/
+def Loop.inFlight (l : Loop) (k : Nat) (d : Bool) (bs : List UInt8) : Loop :=
+  if l.stopped then l else
+  match l.conns[k]? with
+  | none => l
+  | some c =>
+    let c' := c.step (.chunk d bs bs.length false)
+    { l with conns := l.conns.set k c',
+             pendingIn := l.pendingIn + (c'.d0.audited - c.d0.audited),
+             pendingOut := l.pendingOut + (c'.d1.audited - c.d1.audited) }
+
+/-- The writes in flight return: their auditors run, on this loop's own `State`. -/
+def Loop.release (l : Loop) : Loop :=
+  { l with counters := { l.counters with inbound := l.counters.inbound + l.pendingIn,
+                                         outbound := l.counters.outbound + l.pendingOut },
+           pendingIn := 0, pendingOut := 0 }
+
+/-- The controller across loop generations: the `State` objects of earlier
+loops (most recent first; unreachable through `c.state` but still referenced
+by their loops' goroutines) and the current one. -/
+structure Ctl where
+  past : List Loop := []
+  cur : Loop := {}
+  deriving Repr
+
+inductive CtlEvent
+  | loop (e : LoopEvent)
+  /-- Teardown and restart. `inflight`: destination writes (connection,
+  direction, bytes) that are in flight when the loop is torn down. -/
+  | restart (inflight : List (Nat × Bool × List UInt8))
+  /-- All writes in flight (of every generation) return. -/
+  | release
+  deriving Repr
+
+/-- A copy direction has at most one write in flight (its goroutine is inside
+that `Write`): of several entries for the same connection and direction only
+the first can happen. -/
+def firstPerDirection : List (Nat × Bool × List UInt8) → List (Nat × Bool) → List (Nat × Bool × List UInt8)
+  | [], _ => []
+  | w :: rest, seen =>
+    if seen.contains (w.1, w.2.1) then firstPerDirection rest seen
+    else w :: firstPerDirection rest ((w.1, w.2.1) :: seen)
+
+def Ctl.step (c : Ctl) : CtlEvent → Ctl
+  | .loop e => { c with cur := c.cur.step e }
+  | .restart inflight =>
+    let l := (firstPerDirection inflight []).foldl (fun l w => l.inFlight w.1 w.2.1 w.2.2) c.cur
+    -- the forwarding loop returns (its connections are cancelled); `run` installs a fresh State
+    { past := l.step .stop :: c.past, cur := {} }
+  | .release => { past := c.past.map Loop.release, cur := c.cur.release }
+
+/-- The controller under a script; at the end the harness lets all writes return. -/
+def Ctl.run (es : List CtlEvent) : Ctl := (es.foldl Ctl.step {}).step .release
 
 end Mutagen.Model.Forward
